@@ -173,6 +173,16 @@ static void c12_workload(uint64_t seed, int k, int rounds, Result& r) {
         Matrix C(P);                              // shallow copy of own data
         Matrix L; L >>= P;                        // link
         r.push(sum(q)); r.push(sum(C)); r.push(maxval(L));
+        // explicit storage orders on private matrices: the layout of THIS thread's arrays must not depend on what other
+        // threads are doing (the default order is library state that every array construction reads)
+        {
+          Matrix Rm, Cm;
+          Rm.resize_row_major(dimensions(m, n)); Cm.resize_column_major(dimensions(m, n));
+          Rm = av; Cm = av;
+          Matrix D(m, n + 5); D = 1.5;           // default order, padded rows
+          r.pushi(Rm.offset(1)); r.pushi(Cm.offset(0)); r.pushi(D.offset(1)); r.pushi(D.offset(0) >= n + 5 ? 1 : 0);
+          r.push(sum(Rm - Cm)); r.push(sum(D));
+        }
         r.pushi(stack.n_statements()); r.pushi(stack.n_operations()); r.pushi(stack.n_gradients_registered());
         check_active(r, &stack);
       }
